@@ -349,7 +349,11 @@ pub fn run(cases: Vec<(String, Value)>, max_fail: usize, opts: &HashMap<String, 
                     let mut offs: Vec<usize> = vec![cx.span(lp).1];
                     for t in (lp + 1)..=rp {
                         offs.push(cx.span(t).0);
+                        if t < rp {
+                            offs.push(cx.span(t).1); // directly behind the token (e.g. behind a comma just typed)
+                        }
                     }
+                    offs.sort();
                     offs.dedup();
                     for o in offs {
                         let got = ask!("textDocument/signatureHelp", cx.tdp(o), "C14");
